@@ -55,7 +55,10 @@ pub use io::*;
 /// 16 is our initial guess for balance.
 ///
 /// This must be at least 2.
+#[cfg(not(aranya_verif_knobs))]
 const MAX_FACT_INDEX_DEPTH: u64 = 16;
+#[cfg(aranya_verif_knobs)]
+const MAX_FACT_INDEX_DEPTH: u64 = 3;
 
 pub struct LinearStorageProvider<FM: IoManager> {
     manager: FM,
@@ -282,7 +285,10 @@ impl<FM: IoManager> StorageProvider for LinearStorageProvider<FM> {
 /// Maximum segment-walk distance for skip-list construction. Below this
 /// threshold the segments are cheap enough to walk one-by-one, so neither
 /// the rich-anchor probe nor a freshly built skip list pay for themselves.
+#[cfg(not(aranya_verif_knobs))]
 const MIN_SKIP_GAP: u64 = 10;
+#[cfg(aranya_verif_knobs)]
+const MIN_SKIP_GAP: u64 = 3;
 
 /// Skip-list target boundaries for a segment of length `n`: `n/2`, `3n/4`,
 /// `7n/8`, ..., halving the remaining gap each step. Continues until the
@@ -380,6 +386,8 @@ impl<W: Write> LinearStorage<W> {
     }
 
     fn compact(&mut self, mut repr: FactIndexRepr) -> Result<FactIndexRepr, StorageError> {
+        #[cfg(aranya_verif)]
+        crate::verif::probe("facts.compact");
         let mut map = NamedFactMap::new();
         let reader = self.writer.readonly();
         loop {
@@ -416,6 +424,8 @@ impl<W: Write> LinearStorage<W> {
         for _ in 0..MIN_SKIP_GAP {
             let seg = self.get_segment(check)?;
             if seg.skip_list().len() > 1 {
+                #[cfg(aranya_verif)]
+                crate::verif::probe("skip.rich_anchor");
                 return Ok(true);
             }
             match seg.prior() {
@@ -491,6 +501,8 @@ impl<W: Write> LinearStorage<W> {
         let mut current = start;
 
         loop {
+            #[cfg(aranya_verif)]
+            crate::verif::tick();
             let seg = self.get_segment(current)?;
             let seg_min = seg.shortest_max_cut();
 
@@ -606,6 +618,8 @@ impl<F: Write> Storage for LinearStorage<F> {
                 reader: self.writer.readonly(),
             }
         } else {
+            #[cfg(aranya_verif)]
+            crate::verif::probe("facts.midsegment");
             let prior = match segment.repr.prior_facts {
                 Some(offset) => FactPerspectivePrior::FactIndex {
                     offset,
